@@ -86,6 +86,7 @@ func checkC02(c *Ctx) {
 	c.Rule("R5", "an enqueue that can race with the final drain re-tests the quit latch afterwards and drains that queue on the closed branch; other senders are joined before the drain")
 	c.Rule("R6", "split requests: every child carries the parent's done-hook, the counter is initialised to the number of children, the parent is completed only under Dec()==0")
 	c.Rule("R7", "close(done) of a request occurs only inside its SetResponse; nothing sends on done")
+	c.Rule("R8", "flush gate: every iteration of a writer loop passes the `queue empty => Flush` test before blocking on the queue again")
 
 	e := runOwn(c)
 	c.Note("ownership engine: %d functions analysed, %d paths enumerated, %d summaries", e.nfuncs, e.npaths, len(e.sums))
@@ -155,6 +156,7 @@ func checkC02(c *Ctx) {
 
 	checkQueues(c, e)
 	checkChildCounters(c, e, "R6")
+	checkFlushGate(c, "R8")
 
 	// ---------------- R7
 	for _, tn := range []string{"simpleRequest", "rawRequest"} {
@@ -184,27 +186,30 @@ func checkC02(c *Ctx) {
 			c.Unresolved("R7", tn+".SetResponse")
 			continue
 		}
-		ndyn, nret := 0, 0
-		var closeIn ssa.Instruction
-		eachInstr(sr, func(_ *ssa.BasicBlock, _ int, in ssa.Instruction) {
-			if call, ok := in.(*ssa.Call); ok {
-				if calleeFn(call.Common()) == nil && !call.Call.IsInvoke() {
-					if _, isB := call.Call.Value.(*ssa.Builtin); !isB {
-						ndyn++
+		ndyn := 0
+		for _, hf := range append([]*ssa.Function{sr}, staticCalleesDeep(sr, 1)...) {
+			eachInstr(hf, func(_ *ssa.BasicBlock, _ int, in ssa.Instruction) {
+				if call, ok := in.(*ssa.Call); ok {
+					if calleeFn(call.Common()) == nil && !call.Call.IsInvoke() {
+						if _, isB := call.Call.Value.(*ssa.Builtin); !isB {
+							ndyn++
+						}
 					}
 				}
-				if isBuiltin(in, "close") {
-					closeIn = in
-				}
+			})
+		}
+		isCloseDone := func(in ssa.Instruction) bool {
+			if !isBuiltin(in, "close") {
+				return false
 			}
-			if _, ok := in.(*ssa.Return); ok {
-				nret++
-			}
-		})
-		okShape := ndyn == 1 && closeIn != nil && nret == 1
+			g, _ := chanFieldOf(callOf(in).Args[0])
+			return g == f
+		}
+		okShape := ndyn == 1
 		if okShape {
-			// every path to return crosses close
-			okShape = escapesWithout(entryPos(sr), func(in ssa.Instruction) bool { return in == closeIn }) == nil
+			// every path to return crosses close(done) (directly or in a helper)
+			ok2, _ := p.mustOnAllPaths(sr, isCloseDone, 1)
+			okShape = ok2
 		}
 		c.Check(okShape, "R7", tn+".SetResponse shape", sr.Pos(), "one hook-call site in the loop, close(done) on every path", "SetResponse does not run the hooks and close the latch on every path")
 	}
@@ -529,10 +534,43 @@ func checkChildCounters(c *Ctx, e *ownEngine, rule string) {
 	p := c.P
 	n := 0
 	for _, tn := range []string{"msetRequest", "mgetRequest", "sumResultRequest"} {
+		// roles, not names: the counter is the atomic field of the wrapper, the children its slice-of-requests field,
+		// the done-hook is the method registered on every child in Split
 		split := p.Func(redisPkg, "(*"+tn+").Split")
-		done := p.Func(redisPkg, "(*"+tn+").onChildDone")
-		cw := p.Field(redisPkg, tn, "childWait")
-		ch := p.Field(redisPkg, tn, "children")
+		var cw, ch *types.Var
+		if nt := p.Named(redisPkg, tn); nt != nil {
+			if st, ok := nt.Underlying().(*types.Struct); ok {
+				for i := 0; i < st.NumFields(); i++ {
+					f := st.Field(i)
+					if typeIsAtomic(f.Type()) {
+						cw = f
+					}
+					if sl, ok := f.Type().Underlying().(*types.Slice); ok && isReqType(sl.Elem()) {
+						ch = f
+					}
+				}
+			}
+		}
+		var done *ssa.Function
+		if split != nil {
+			eachInstr(split, func(_ *ssa.BasicBlock, _ int, in ssa.Instruction) {
+				if !isMethodCall(in, modPath+"/"+redisPkg, "simpleRequest", "RegisterHook") {
+					return
+				}
+				if mc, ok := callOf(in).Args[1].(*ssa.MakeClosure); ok {
+					g := mc.Fn.(*ssa.Function)
+					if g.Synthetic != "" {
+						eachInstr(g, func(_ *ssa.BasicBlock, _ int, x ssa.Instruction) {
+							if c2 := callOf(x); c2 != nil && calleeFn(c2) != nil {
+								done = calleeFn(c2)
+							}
+						})
+					} else {
+						done = g
+					}
+				}
+			})
+		}
 		if split == nil || done == nil || cw == nil || ch == nil {
 			c.Unresolved(rule, tn+" Split/onChildDone/childWait/children")
 			continue
@@ -680,4 +718,114 @@ func checkChildCounters(c *Ctx, e *ownEngine, rule string) {
 	c.Expect(rule, 12)
 	_ = e
 	_ = n
+}
+
+// checkFlushGate: a writer loop batches writes and flushes only when its queue is empty. Every path of one iteration,
+// from the dequeue back to the (blocking) dequeue, must cross the test `len(queue) == 0` whose empty branch flushes;
+// otherwise bytes written earlier can sit in the buffer while the loop blocks, and the request they belong to is
+// never answered until some unrelated request happens to come along.
+func checkFlushGate(c *Ctx, rule string) {
+	p := c.P
+	n := 0
+	for _, q := range []*types.Var{p.Field(redisPkg, "client", "pendingReqs"), p.Field(redisPkg, "session", "processingReqs")} {
+		if q == nil {
+			c.Unresolved(rule, "writer queue")
+			continue
+		}
+		for _, op := range p.chanOpsOnField(q) {
+			if op.Kind != opRecv || op.InSelect == nil || !op.Blocking {
+				continue
+			}
+			fn := op.Fn
+			// writer: also encodes
+			var enc ssa.Instruction
+			eachInstr(fn, func(_ *ssa.BasicBlock, _ int, in ssa.Instruction) {
+				if cc := callOf(in); cc != nil {
+					if g := calleeFn(cc); g != nil && g.Name() == "Encode" {
+						enc = in
+					}
+				}
+			})
+			if enc == nil {
+				continue
+			}
+			n++
+			sel := op.InSelect
+			k := -1
+			for i, st := range sel.States {
+				if f, _ := chanFieldOf(st.Chan); f == q && st.Dir == types.RecvOnly {
+					k = i
+				}
+			}
+			cb := selectCaseBlock(sel, k)
+			if cb == nil {
+				c.Undecided(rule, fnKey(fn)+" dequeue", sel.Pos(), "cannot locate the dequeue branch")
+				continue
+			}
+			// gates
+			type gate struct {
+				iff   *ssa.If
+				empty int // successor index taken when the queue is empty
+			}
+			var gates []gate
+			eachInstr(fn, func(_ *ssa.BasicBlock, _ int, in ssa.Instruction) {
+				iff, ok := in.(*ssa.If)
+				if !ok {
+					return
+				}
+				bo, ok := iff.Cond.(*ssa.BinOp)
+				if !ok || (bo.Op != token.EQL && bo.Op != token.NEQ) {
+					return
+				}
+				call, ok := bo.X.(*ssa.Call)
+				z, isZ := constInt(bo.Y)
+				if !ok || !isBuiltin(call, "len") || !isZ || z != 0 {
+					return
+				}
+				if f, _ := chanFieldOf(call.Call.Args[0]); f != q {
+					return
+				}
+				e := 0
+				if bo.Op == token.NEQ {
+					e = 1
+				}
+				gates = append(gates, gate{iff, e})
+			})
+			site := fnKey(fn) + " writer loop"
+			if len(gates) == 0 {
+				c.Fail(rule, site+" has a flush gate", sel.Pos(), "the writer never tests its queue for emptiness to flush: written requests/replies can stay in the buffer")
+				continue
+			}
+			isGate := func(x ssa.Instruction) bool {
+				for _, g := range gates {
+					if x == ssa.Instruction(g.iff) {
+						return true
+					}
+				}
+				return false
+			}
+			again := func(x ssa.Instruction) bool { return x == ssa.Instruction(sel) }
+			path := findPath(ipos{cb, -1}, pathQuery{target: again, avoid: isGate})
+			if path != nil {
+				c.Fail(rule, site+" every iteration passes the flush gate", sel.Pos(), "an iteration can return to the blocking dequeue without testing `len(queue) == 0` ("+p.pathString(path)+"): what earlier iterations wrote stays unflushed while the loop blocks, and the requests it belongs to are not answered until an unrelated request arrives")
+			} else {
+				c.OK(rule, site+" every iteration passes the flush gate", sel.Pos(), "every path from the dequeue back to the dequeue crosses the queue-empty test")
+			}
+			for gi, g := range gates {
+				isFlush := func(x ssa.Instruction) bool {
+					cc := callOf(x)
+					if cc == nil {
+						return false
+					}
+					gf := calleeFn(cc)
+					return gf != nil && gf.Name() == "Flush"
+				}
+				pth := findPath(ipos{g.iff.Block().Succs[g.empty], -1}, pathQuery{target: again, avoid: isFlush})
+				c.Check(pth == nil, rule, fmt.Sprintf("%s gate#%d flushes when the queue is empty", site, gi+1), g.iff.Pos(), "the empty branch reaches Flush before the next dequeue", "on the queue-empty branch the loop goes back to the blocking dequeue without flushing")
+			}
+		}
+	}
+	if n < 2 {
+		c.Unresolved(rule, fmt.Sprintf("expected two writer loops, found %d", n))
+	}
 }
